@@ -49,8 +49,8 @@ var baseWeights = map[string]int{
 
 var stepOrder = []string{"upsert", "delete", "compact", "gossip", "deliver", "drop", "dup", "deliverAll", "advance", "liveness", "sweep", "leave", "leaveVia", "close", "crash", "join", "addConn", "removeConn", "partition", "heal", "toExpiry", "silence", "forge"}
 
-var simKeys = []string{"a", "b", "c", "d", "kéy", ""}
-var simEps = []string{"e0", "e1", "E1"} // the last is a case variant of the second
+var simKeys = []string{"a", "b", "c", "d", "kéy", "", "k\xff\xfe"} // the last is not valid UTF-8 (keys are arbitrary strings)
+var simEps = []string{"e0", "e1", "E1"}                            // the last is a case variant of the second
 
 const gossipInterval = 100 * time.Millisecond
 
